@@ -380,6 +380,7 @@ type prepWorld struct {
 
 	finalPrepares int // PREPAREs received during the final phase
 	timeouts      []prepTimeout
+	earlyTimeouts []prepTimeout  // timeouts of requests the node had not read yet
 	flights       map[string]int // host -> PREPAREs the driver has in flight (published, not finished)
 
 	sameAddr   bool            // every connection reports one remote address
@@ -1243,6 +1244,13 @@ func (w *prepWorld) app(sc *node.SConn, rec *node.ReqRec) {
 		w.cl.SendError(sc, rec, cqlspec.ErrInvalid, "run is over", node.Auto)
 		return
 	}
+	if rq.Header.Opcode != cqlspec.OpPrepare {
+		// (a timeout the driver met before the node read this request is this request's)
+		w.mu.Lock()
+		w.resolveTimeoutsLocked()
+		w.takeEarlyTimeoutLocked(sc.C.Name, rec.Stream)
+		w.mu.Unlock()
+	}
 	switch rq.Header.Opcode {
 	case cqlspec.OpPrepare:
 		w.onPrepare(sc, rec)
@@ -1296,6 +1304,10 @@ func (w *prepWorld) onPrepare(sc *node.SConn, rec *node.ReqRec) {
 	p := &prepReq{key: key, sc: sc, rec: rec, arrive: now, arriveStep: k.Step(), waiters: map[*prepOp]bool{}, exclusive: true}
 	p.winnerStep = w.winnerStep[sc.C.Name]
 	w.resolveTimeoutsLocked()
+	if w.takeEarlyTimeoutLocked(sc.C.Name, rec.Stream) {
+		p.timedOut, p.failed = true, true
+		k.Probe("prepare-timed-out-in-the-driver-before-the-node-read-it")
+	}
 	// a PREPARE of the key whose connection was lost before its answer had been delivered is
 	// over (the next scan would say so): this one does not overlap it
 	for _, p1 := range key.window {
@@ -1500,6 +1512,7 @@ func (w *prepWorld) checkSenderLocked(p *prepReq, ns *prepNodeState) {
 // that timed out is the last one the connection received on that stream.
 func (w *prepWorld) resolveTimeoutsLocked() {
 	for _, ev := range w.timeouts {
+		matched := false
 		for _, p := range w.preps {
 			if p.timedOut || p.sc.C.Name != ev.conn || p.rec.Stream != ev.stream || p.rec.Step > ev.step {
 				continue
@@ -1514,10 +1527,39 @@ func (w *prepWorld) resolveTimeoutsLocked() {
 			if last {
 				p.timedOut = true
 				p.failed = true
+				matched = true
+			}
+		}
+		if !matched {
+			// nothing the node has read on that stream is still owed an answer: the driver
+			// gave up before the node has taken the request in (it was written, the clock
+			// went on, the node reads it now or later); the event waits for the request
+			owed := false
+			for _, sc := range w.cl.SConns() {
+				if sc.C.Name == ev.conn && sc.Outstanding[ev.stream] != nil {
+					owed = true
+				}
+			}
+			if !owed {
+				w.earlyTimeouts = append(w.earlyTimeouts, ev)
 			}
 		}
 	}
 	w.timeouts = w.timeouts[:0]
+}
+
+// takeEarlyTimeoutLocked reports (and forgets) that the driver had already given up on the
+// request that arrives now on this connection and stream. A stream id is not used again
+// before the answer to the request that timed out on it has arrived, so the first request
+// seen on the stream after the event is that request.
+func (w *prepWorld) takeEarlyTimeoutLocked(conn string, stream int) bool {
+	for i, ev := range w.earlyTimeouts {
+		if ev.conn == conn && ev.stream == stream {
+			w.earlyTimeouts = append(w.earlyTimeouts[:i], w.earlyTimeouts[i+1:]...)
+			return true
+		}
+	}
+	return false
 }
 
 // touchKey forgets the PREPAREs seen so far for a key: a restart or an UNPREPARED answer
